@@ -68,10 +68,15 @@ func (p PatternSchema) Validate(d any) error {
 		}
 	}
 
-	_, ok := d.(*regexp.Regexp)
+	pattern, ok := d.(*regexp.Regexp)
 	if !ok {
 		return &ConstraintError{
 			Message: fmt.Sprintf("%T is not a valid data type for a float schema.", d),
+		}
+	}
+	if pattern == nil {
+		return &ConstraintError{
+			Message: "Pattern value should not be nil.",
 		}
 	}
 	return nil
